@@ -280,7 +280,7 @@ class Functor(rigid.Functor):
         if isinstance(box, Measure):
             measure = CQMap.measure(
                 self(box.dom).quantum, destructive=box.destructive)
-            measure = measure @ CQMap.discard(self(box.dom).classical)\
+            measure = measure @ CQMap.discard(C(self(box.dom).classical))\
                 if box.override_bits else measure
             return measure
         if isinstance(box, (MixedState, Encode)):
